@@ -181,33 +181,35 @@ int32 VSseek(int32 vkey, int32 eltpos)
 #ifndef RL
 #define RL 0
 #endif
-#if VL == 1 /* two fields: f0 = 3 x uint8 (3 bytes), f1 = 2 x uint16 (4 bytes): 7-byte records */
+/* record sizes are powers of two wherever possible: x and / by the record size are then shifts, which is
+   what keeps the sums over the chunks decidable for SAT (a 7-byte layout is kept as VL == 5) */
+#if VL == 1 /* two fields: f0 = 4 x uint8 (4 bytes), f1 = 2 x uint16 (4 bytes): 8-byte records */
 #define L_NF  2
-#define L_IVS 7
+#define L_IVS 8
 #define L_T0 DFNT_UINT8
-#define L_O0 3
-#define L_S0 3
+#define L_O0 4
+#define L_S0 4
 #define L_T1 DFNT_UINT16
 #define L_O1 2
 #define L_S1 4
-#elif VL == 2 /* one field: 3 x int32: 12-byte records (case E) */
+#elif VL == 2 /* one field: 4 x int32: 16-byte records (case E of VSread) */
 #define L_NF  1
-#define L_IVS 12
+#define L_IVS 16
 #define L_T0 DFNT_INT32
-#define L_O0 3
-#define L_S0 12
+#define L_O0 4
+#define L_S0 16
 #define L_T1 DFNT_INT32
 #define L_O1 1
 #define L_S1 0
-#elif VL == 3 /* two fields: f0 = 1 x uint8, f1 = 1 x int32: 5-byte records */
+#elif VL == 3 /* two fields: f0 = 1 x uint16, f1 = 3 x uint16: 8-byte records, user subsets of 2 and 6 bytes */
 #define L_NF  2
-#define L_IVS 5
-#define L_T0 DFNT_UINT8
+#define L_IVS 8
+#define L_T0 DFNT_UINT16
 #define L_O0 1
-#define L_S0 1
-#define L_T1 DFNT_INT32
-#define L_O1 1
-#define L_S1 4
+#define L_S0 2
+#define L_T1 DFNT_UINT16
+#define L_O1 3
+#define L_S1 6
 #elif VL == 4 /* one field: 1 x uint8: 1-byte records (counts up to the int32 limit) */
 #define L_NF  1
 #define L_IVS 1
@@ -217,6 +219,15 @@ int32 VSseek(int32 vkey, int32 eltpos)
 #define L_T1 DFNT_UINT8
 #define L_O1 1
 #define L_S1 0
+#elif VL == 5 /* two fields: f0 = 3 x uint8 (3 bytes), f1 = 2 x uint16 (4 bytes): 7-byte records */
+#define L_NF  2
+#define L_IVS 7
+#define L_T0 DFNT_UINT8
+#define L_O0 3
+#define L_S0 3
+#define L_T1 DFNT_UINT16
+#define L_O1 2
+#define L_S1 4
 #endif
 /* read lists: 0 = every field in table order, 1 = {f1} (a subset: the user's record is SMALLER than the
    stored one), 2 = {f1, f0} (a permutation), 3 = {f0} */
@@ -241,7 +252,6 @@ int32 VSseek(int32 vkey, int32 eltpos)
 #define L_I1 0
 #define L_UVS L_IVS
 #endif
-#define L_TSIZE(t) ((t) == DFNT_UINT8 ? 1 : (t) == DFNT_UINT16 ? 2 : 4)
 
 /* ---- ghost log ---- */
 const uint8 *g_ubuf;     /* the user's buffer ...                                   */
@@ -416,7 +426,8 @@ int32 VSread(int32 vkey, uint8 buf[], int32 nelt, int32 interlace)
     __CPROVER_ensures((__CPROVER_return_value == nelt && g_r >= 0 && g_r < nelt) ==> HIT_OK(nelt))
     /* ... and delivered to ITS position in the user's buffer */
     __CPROVER_ensures((__CPROVER_return_value == nelt && g_r >= 0 && g_r < nelt) ==> CV_OK(L_UVS))
-    __CPROVER_ensures(VTBUF_WF);
+    /* the transfer buffer and its recorded size stay consistent (allocation failure apart: see the report) */
+    __CPROVER_ensures(g_malloc_failed || VTBUF_WF);
 
 #define WR_REFUSED                                                                                   \
     (KEY_BAD || nelt <= 0 || g_vs->access != 'w' || g_exist == FAIL || g_vs->wlist.n == 0 || BAD_INTERLACE || g_vs->aid == 0)
@@ -442,7 +453,8 @@ int32 VSwrite(int32 vkey, const uint8 buf[], int32 nelt, int32 interlace)
     /* chunking (see VSread) */
     __CPROVER_ensures((__CPROVER_return_value == nelt && g_r >= 0 && g_r < nelt) ==> HIT_OK(nelt))
     __CPROVER_ensures((__CPROVER_return_value == nelt && g_r >= 0 && g_r < nelt) ==> CV_OK(L_IVS))
-    __CPROVER_ensures(VTBUF_WF);
+    /* the transfer buffer and its recorded size stay consistent (allocation failure apart: see the report) */
+    __CPROVER_ensures(g_malloc_failed || VTBUF_WF);
 #endif /* VRW_LOG */
 
 #ifdef H4V_NATIVE
@@ -602,7 +614,10 @@ h_VSread(void)
 /* ---------------- log-mode harnesses ---------------- */
 typedef uint32 u32;
 H4V_DECL_ND(u32);
-#define NELT_CAP (3 * (VDATA_BUFFER_MAX / L_IVS + 1) + 5) /* up to 4 transfer-buffer chunks */
+#ifndef NCHUNK
+#define NCHUNK 3
+#endif
+#define NELT_CAP ((NCHUNK - 1) * (VDATA_BUFFER_MAX / L_IVS + 1) + 5) /* up to NCHUNK transfer-buffer chunks */
 #define TB_CAP 4000000u
 
 /* good key, vdata and layout built from constants only (cbmc then resolves vs->wlist.* to constants) */
@@ -739,6 +754,7 @@ h_VSwrite_log(void)
     H4V_ASSUME(g_r >= 0 && (g_r < nelt || g_r == 0) && ((long long)p + g_r) * L_IVS <= 2147483647LL);
     g_rpos   = (p + g_r) * L_IVS;
     int32  r = VSwrite(7, ubuf, nelt, interlace);
+#ifndef VW_LIMIT
     H4V_COVER(r == nelt && p < nvert && p + nelt > nvert, "VSwrite starts inside the table and runs past its end");
     H4V_COVER(r == nelt && nelt > 0 && p + nelt < nvert, "VSwrite overwrites inside the table");
     H4V_COVER(r == nelt && p == nvert && nvert > 0, "VSwrite appends");
@@ -746,6 +762,7 @@ h_VSwrite_log(void)
     H4V_COVER(r == nelt && g_io_n >= 3 && g_hit_before > 0, "VSwrite in 3 or more chunks");
     H4V_COVER(r == nelt && g_io_n == 1 && nelt > 1, "VSwrite in one transfer");
     H4V_COVER(r == FAIL && g_io_failed && g_io_n == 2, "VSwrite: second transfer fails");
+#endif
     H4V_CANARY("VSwrite end");
 }
 
@@ -758,10 +775,12 @@ h_VSread_log(void)
     H4V_ND(int32, nelt);
     H4V_ND(int32, il);
     H4V_ASSUME(nvert >= 0 && nvert <= 2147483647 / L_IVS && p >= 0 && p <= 2147483647 / L_IVS);
-#ifdef VR_LIMIT /* requests whose byte count does not fit int32 */
+#if defined(VR_LIMIT) /* requests whose byte count does not fit int32 */
     H4V_ASSUME(nelt > 0 && (long long)nelt * L_IVS > 2147483647LL);
+#elif defined(VR_NEG) /* a negative record count */
+    H4V_ASSUME(nelt < 0 && nelt >= -1000);
 #else
-    H4V_ASSUME(nelt >= -3 && nelt <= NELT_CAP);
+    H4V_ASSUME(nelt >= 0 && nelt <= NELT_CAP);
 #endif
     int32 interlace = FULL_INTERLACE;
     if (L_NF == 1) {
@@ -772,10 +791,12 @@ h_VSread_log(void)
     H4V_ASSUME(g_r >= 0 && (g_r < nelt || g_r == 0) && ((long long)p + g_r) * L_IVS <= 2147483647LL);
     g_rpos   = (p + g_r) * L_IVS;
     int32  r = VSread(7, ubuf, nelt, interlace);
+#if !defined(VR_LIMIT) && !defined(VR_NEG)
     H4V_COVER(r == nelt && nelt > 0 && g_io_n >= 3 && g_hit_before > 0, "VSread in 3 or more chunks");
     H4V_COVER(r == nelt && g_io_n == 1 && nelt > 1, "VSread in one transfer");
     H4V_COVER(r == 0 && nelt == 0, "VSread of no record");
     H4V_COVER(r == FAIL && nelt > 0 && p + nelt > nvert && nvert > 0, "VSread beyond the last record fails");
+#endif
     H4V_CANARY("VSread end");
 }
 #endif /* VRW_LOG */
